@@ -47,6 +47,11 @@ class Wrapc(util.WrapperMixin):
         self.language = newlibrary.language
         self.config = config
         self.log = config.log
+        # Start each library with empty tables,
+        # the class attributes would be shared by all instances.
+        self.capsule_code = {}
+        self.capsule_order = []
+        self.capsule_include = {}
         self._init_splicer(splicers)
         self.comment = "//"
         self.cont = ""
